@@ -5,8 +5,6 @@ use crate::rng::{hash_bytes, hash_u64, mix};
 use serde_json::{json, Map, Value};
 use std::collections::{BTreeMap, BTreeSet};
 use std::path::PathBuf;
-use std::sync::atomic::{AtomicUsize, Ordering};
-use std::sync::Mutex;
 use std::time::Instant;
 
 pub const DEFAULT_SEED: u64 = 20260926;
@@ -43,9 +41,26 @@ pub struct Violation {
     /// violation class: the oracle and call site, e.g. "unwind at falcon-rust/src/encoding.rs:179"
     pub class: String,
     pub detail: String,
-    /// self-contained replay plan (literal inputs)
+    /// self-contained replay plan (literal inputs), minimised
     pub replay: Value,
     pub run: u64,
+}
+
+impl Violation {
+    pub fn to_json(&self) -> Value {
+        json!({"property": self.property, "class": self.class, "detail": self.detail, "replay": self.replay, "run": self.run})
+    }
+    pub fn from_json(v: &Value) -> Option<Violation> {
+        let prop = v.get("property")?.as_str()?;
+        let property: &'static str = ["C01", "C02", "C03", "C05", "C06", "C08", "C09", "C10", "C15", "C16"].iter().find(|p| **p == prop).copied()?;
+        Some(Violation {
+            property,
+            class: v.get("class")?.as_str()?.to_string(),
+            detail: v.get("detail")?.as_str()?.to_string(),
+            replay: v.get("replay")?.clone(),
+            run: v.get("run")?.as_u64()?,
+        })
+    }
 }
 
 #[derive(Clone, Debug, Default)]
@@ -62,9 +77,44 @@ pub struct Stats {
     pub notes: BTreeSet<String>,
     /// event-log hash of the whole batch (order-independent merge by run index)
     pub log_hash: u64,
+    /// raw observations a check wants to evaluate over the whole batch (e.g. salts)
+    pub blobs: Vec<(u64, Vec<u8>)>,
 }
 
 impl Stats {
+    pub fn to_json(&self) -> Value {
+        json!({
+            "c": self.counters,
+            "d": self.distinct.iter().collect::<Vec<_>>(),
+            "i": self.interleavings.iter().collect::<Vec<_>>(),
+            "o": self.overlap_states.iter().map(|(a, b)| (*a as u32) << 8 | *b as u32).collect::<Vec<_>>(),
+            "s": self.steps,
+            "e": self.evaluations,
+            "x": self.samples,
+            "n": self.notes.iter().collect::<Vec<_>>(),
+            "h": self.log_hash,
+            "b": self.blobs.iter().map(|(t, b)| json!([t, crate::rng::hex(b)])).collect::<Vec<_>>(),
+        })
+    }
+    pub fn from_json(v: &Value) -> Option<Stats> {
+        let mut st = Stats::default();
+        for (k, x) in v.get("c")?.as_object()? {
+            st.counters.insert(k.clone(), x.as_u64()?);
+        }
+        st.distinct = v.get("d")?.as_array()?.iter().filter_map(|x| x.as_u64()).collect();
+        st.interleavings = v.get("i")?.as_array()?.iter().filter_map(|x| x.as_u64()).collect();
+        st.overlap_states = v.get("o")?.as_array()?.iter().filter_map(|x| x.as_u64()).map(|x| ((x >> 8) as u8, x as u8)).collect();
+        st.steps = v.get("s")?.as_u64()?;
+        st.evaluations = v.get("e")?.as_u64()?;
+        st.samples = v.get("x")?.as_array()?.clone();
+        st.notes = v.get("n")?.as_array()?.iter().filter_map(|x| x.as_str().map(|s| s.to_string())).collect();
+        st.log_hash = v.get("h")?.as_u64()?;
+        for b in v.get("b")?.as_array()? {
+            let a = b.as_array()?;
+            st.blobs.push((a.get(0)?.as_u64()?, crate::rng::unhex(a.get(1)?.as_str()?)?));
+        }
+        Some(st)
+    }
     pub fn add(&mut self, key: &str, n: u64) {
         if n > 0 || !self.counters.contains_key(key) {
             *self.counters.entry(key.to_string()).or_insert(0) += n;
@@ -91,6 +141,7 @@ impl Stats {
             self.sample(s);
         }
         self.notes.extend(o.notes);
+        self.blobs.extend(o.blobs);
         self.log_hash = hash_u64(self.log_hash, o.log_hash);
     }
 }
@@ -125,38 +176,66 @@ impl EventLog {
     }
 }
 
-/// Execute runs 0..n on the worker pool; merge in run-index order.
+impl RunOutcome {
+    pub fn to_bytes(&self) -> Vec<u8> {
+        serde_json::to_vec(&json!({"stats": self.stats.to_json(), "violations": self.violations.iter().map(|v| v.to_json()).collect::<Vec<_>>()})).unwrap_or_default()
+    }
+    pub fn from_bytes(b: &[u8]) -> Option<RunOutcome> {
+        let v: Value = serde_json::from_slice(b).ok()?;
+        Some(RunOutcome {
+            stats: Stats::from_json(v.get("stats")?)?,
+            violations: v.get("violations")?.as_array()?.iter().map(Violation::from_json).collect::<Option<Vec<_>>>()?,
+        })
+    }
+}
+
+/// Execute runs 0..n, each in its own forked child process (see isolate.rs),
+/// distributed over `nworkers` worker processes; merge in run-index order, so
+/// the verdict and the evidence do not depend on the worker count.
+/// `on_death` turns a run whose process died (signal, abort, wall-clock limit)
+/// into a violation of the calling property.
 pub fn parallel_runs<F>(n: u64, nworkers: usize, f: F) -> RunOutcome
 where
     F: Fn(u64) -> RunOutcome + Sync,
 {
-    let next = AtomicUsize::new(0);
-    let results: Mutex<BTreeMap<u64, RunOutcome>> = Mutex::new(BTreeMap::new());
     let deadline = std::env::var("VERIF_DEADLINE_S").ok().and_then(|s| s.parse::<f64>().ok());
-    let t0 = Instant::now();
-    std::thread::scope(|sc| {
-        for _ in 0..nworkers.max(1) {
-            sc.spawn(|| loop {
-                let i = next.fetch_add(1, Ordering::SeqCst) as u64;
-                if i >= n {
-                    break;
-                }
-                if let Some(d) = deadline {
-                    if t0.elapsed().as_secs_f64() > d {
-                        break;
-                    }
-                }
-                let r = f(i);
-                results.lock().unwrap().insert(i, r);
-            });
-        }
-    });
+    let items: Vec<u64> = (0..n).collect();
+    let g = |i: u64| f(i).to_bytes();
+    let results = crate::isolate::fork_map(&items, nworkers, deadline, &g);
     let mut out = RunOutcome::default();
-    for (_i, r) in results.into_inner().unwrap() {
-        out.stats.merge(r.stats);
-        out.violations.extend(r.violations);
+    for (i, r) in results {
+        match r {
+            Ok(bytes) => match RunOutcome::from_bytes(&bytes) {
+                Some(o) => {
+                    out.stats.merge(o.stats);
+                    out.violations.extend(o.violations);
+                }
+                None => {
+                    out.stats.inc("harness.undecodable_run_result");
+                }
+            },
+            Err(fail) => {
+                out.stats.inc("runs_whose_process_died");
+                out.stats.blobs.push((u64::MAX - i, fail.describe().into_bytes()));
+            }
+        }
     }
     out
+}
+
+/// Runs whose process died (recorded by `parallel_runs`): (run index, description).
+pub fn take_dead_runs(st: &mut Stats) -> Vec<(u64, String)> {
+    let mut dead = Vec::new();
+    let mut keep = Vec::new();
+    for (t, b) in std::mem::take(&mut st.blobs) {
+        if t > u64::MAX / 2 {
+            dead.push((u64::MAX - t, String::from_utf8_lossy(&b).to_string()));
+        } else {
+            keep.push((t, b));
+        }
+    }
+    st.blobs = keep;
+    dead
 }
 
 pub fn run_seed(seed: u64, prop: &str, run: u64) -> u64 {
@@ -257,6 +336,20 @@ impl Report {
         // one report per violation class (the first = lowest run index, already minimised by the check)
         let mut seen_classes: BTreeSet<String> = BTreeSet::new();
         let mut harness_error = false;
+        // runs whose process died are violations too (abort, stack overflow, no termination)
+        for (run, what) in take_dead_runs(&mut self.stats) {
+            self.violations.push(Violation {
+                property: self.property,
+                class: format!("run's process died: {}", what),
+                detail: format!("run {} of this batch", run),
+                replay: json!({"kind": "rerun"}),
+                run,
+            });
+        }
+        if self.stats.counters.get("harness.undecodable_run_result").copied().unwrap_or(0) > 0 {
+            eprintln!("HARNESS-ERROR: some run results could not be decoded");
+            harness_error = true;
+        }
         self.violations.sort_by_key(|v| v.run);
         let total_violations = self.violations.len();
         for v in &self.violations {
@@ -278,36 +371,55 @@ impl Report {
                 hash_bytes(0, v.class.as_bytes()) as u32
             );
             let path = dir.join(name);
-            let mut doc = v.replay.clone();
-            if let Value::Object(m) = &mut doc {
-                m.insert("property".into(), json!(v.property));
-                m.insert("seed".into(), json!(self.seed));
-                m.insert("run".into(), json!(v.run));
-                m.insert("violation".into(), json!(v.class));
-                m.insert("detail".into(), json!(v.detail));
+            // candidates: the minimised plan, then the whole run re-executed from (seed, run)
+            let rerun = json!({"kind": "rerun", "tier": self.tier.name()});
+            let mut candidates = vec![v.replay.clone()];
+            if v.replay.get("kind").and_then(|k| k.as_str()) != Some("rerun") && v.run < (1 << 40) {
+                candidates.push(rerun);
+            } else if v.replay.get("kind").and_then(|k| k.as_str()) == Some("rerun") {
+                candidates = vec![rerun];
             }
-            if let Err(e) = std::fs::write(&path, serde_json::to_string_pretty(&doc).unwrap()) {
-                eprintln!("HARNESS-ERROR: cannot write replay file {}: {}", path.display(), e);
-                harness_error = true;
-                continue;
-            }
-            // the replay must reproduce the same class before we report it
-            match confirm(&doc) {
-                Some(c) if c == v.class => {
-                    println!("VIOLATION property={} replay={}", v.property, path.display());
-                    println!("  class: {}", v.class);
-                    println!("  detail: {}", v.detail);
-                    new_violations += 1;
+            let mut reported = false;
+            let mut last: Option<String> = None;
+            for (ci, cand) in candidates.into_iter().enumerate() {
+                let mut doc = cand;
+                if let Value::Object(m) = &mut doc {
+                    m.insert("property".into(), json!(v.property));
+                    m.insert("seed".into(), json!(self.seed));
+                    m.insert("run".into(), json!(v.run));
+                    m.insert("violation".into(), json!(v.class));
+                    m.insert("detail".into(), json!(v.detail));
+                    if ci > 0 {
+                        m.insert("note".into(), json!("the minimised plan did not reproduce in a fresh process; this file re-executes the whole run from (seed, run)"));
+                    }
                 }
-                other => {
-                    eprintln!(
-                        "HARNESS-ERROR: replay of {} did not reproduce class {:?} (got {:?})",
-                        path.display(),
-                        v.class,
-                        other
-                    );
+                if let Err(e) = std::fs::write(&path, serde_json::to_string_pretty(&doc).unwrap()) {
+                    eprintln!("HARNESS-ERROR: cannot write replay file {}: {}", path.display(), e);
                     harness_error = true;
+                    break;
                 }
+                // the replay must reproduce the same class in a fresh process before we report it
+                match confirm(&doc) {
+                    Some(c) if c == v.class => {
+                        println!("VIOLATION property={} replay={}", v.property, path.display());
+                        println!("  class: {}", v.class);
+                        println!("  detail: {}", v.detail);
+                        new_violations += 1;
+                        reported = true;
+                        break;
+                    }
+                    other => last = other,
+                }
+            }
+            if !reported {
+                eprintln!(
+                    "HARNESS-ERROR: no replay of run {} reproduced class {:?} in a fresh process (got {:?}); see {}",
+                    v.run,
+                    v.class,
+                    last,
+                    path.display()
+                );
+                harness_error = true;
             }
         }
 
